@@ -886,6 +886,8 @@ func generate(seed uint64, n int) {
 	out.Emit(History{ID: n + 5, Cached: false, Cut: -1, Witness: "MEMFREE", Probe: "alloc-importer", NoChurn: true})
 	out.Emit(History{ID: n + 6, Cached: true, Cut: -1, Witness: "MEMFREE", Probe: "alloc-definer", NoChurn: true})
 	out.Emit(History{ID: n + 7, Cached: false, Cut: -1, Witness: "MEMFREE", Probe: "alloc-ctxclose", NoChurn: true})
+	out.Emit(History{ID: n + 8, Cached: false, Cut: -1, Witness: "MEMFREE", Probe: "alloc-dupfail", NoChurn: true})
+	out.Emit(History{ID: n + 9, Cached: true, Cut: -1, Witness: "MEMFREE", Probe: "alloc-dupfail-live", NoChurn: true})
 }
 
 // FixedGlobals: the importer M of a funcref global imports NOTHING else from the exporter A. M reads the global
